@@ -818,6 +818,39 @@ def directed(ctx, lines, pending):
     except Exception as e:
         ctx.fail(site, "raises", "empty landmark manager: apply raised %s" % type(e).__name__, rp)
     ctx.case(("empty-manager",), nontrivial=True)
+    # boundary size: a host with ZERO points that still carries landmark groups (legal: an annotated but empty
+    # template); the groups must move with the map exactly as on any other host
+    import menpo.shape as ms
+    for d in (2, 3):
+        makers = {
+            "PointCloud": lambda d=d: ms.PointCloud(np.zeros((0, d))),
+            "TriMesh": lambda d=d: ms.TriMesh(np.zeros((0, d)), trilist=np.zeros((0, 3), dtype=int)),
+            "ColouredTriMesh": lambda d=d: ms.ColouredTriMesh(np.zeros((0, d)), trilist=np.zeros((0, 3), dtype=int),
+                                                              colours=np.zeros((0, 3))),
+        }
+        for cls, mk in makers.items():
+            for kind in ("Translation", "Affine", "UniformScale"):
+                tsp = gen_transform_spec(rng, kind, d)
+                site = "C02/apply/" + cls
+                gpts = np.array(gen_points(rng, 4, d), dtype=float)
+                rp = {"how": "host = %s with 0 points in %dD; host.landmarks['g'] = PointCloud(%r); "
+                             "build_transform(%r).apply(host)" % (cls, d, gpts.tolist(), tsp)}
+                ctx.case(("zero-point-host", cls, d, kind, gpts.tobytes()), nontrivial=True)
+                ctx.count("zero-point-host:" + cls)
+                try:
+                    host = mk()
+                    host.landmarks["g"] = ms.PointCloud(gpts.copy())
+                    t = build_transform(tsp)
+                    before = digest(host)
+                    r = t.apply(host)
+                    want = build_transform(tsp).apply(gpts.copy())
+                    ctx.check(type(r) is type(host) and r.points.shape == (0, d), site, "class-or-points",
+                              "zero-point host: result is %s with points %r" % (type(r).__name__, r.points.shape), rp)
+                    ctx.check(r.has_landmarks and arr_close(r.landmarks["g"].points, want), site, "landmarks-not-moved",
+                              "zero-point host: its landmark group was not moved by the same map as the bare array", rp)
+                    ctx.check(digest(host) == before, site, "input-mutated", "zero-point host: input changed", rp)
+                except Exception as e:
+                    ctx.fail(site, "raises", "zero-point host: apply raised %s: %s" % (type(e).__name__, e), rp)
 
 
 def generated(ctx):
